@@ -481,3 +481,82 @@ Definition compare_block_poly (ph0 ph1 : list (list Z)) : poly_errors :=
       (sf_dp 1 1 k cs)
       (sf_optimal_decompositions 1 1 k cs)
       (length cs - length matched).
+
+(* ============================================================================================ *)
+(* 5. compare() / compare_pair for ploidy > 2 (numbers as numerators: reported value * ploidy)   *)
+(* ============================================================================================ *)
+
+(* polyploid call: phase = Some (block_id, alleles of haplotype 0 .. k-1) *)
+Definition pcall := (Z * Z * bool * option (Z * list Z))%type.
+Definition strip (c : pcall) : call :=
+  (fst (fst (fst c)), snd (fst (fst c)), snd (fst c),
+   option_map (fun x : Z * list Z => (fst x, (false, false))) (snd c)).
+Definition palleles (t : list pcall) (c : call) : list Z :=
+  match find (fun d => same_variant c (strip d)) t with
+  | Some (_, Some (_, al)) => al
+  | _ => []
+  end.
+Definition dummy_call : call := (0%Z, 0%Z, false, None).
+(* phasing (k haplotype strings) of a block in table t *)
+Definition prows (k : nat) (t : list pcall) (common : list call) (block : list nat) : list (list Z) :=
+  map (fun j => map (fun i => nth j (palleles t (nth i common dummy_call)) 0%Z) block) (seq 0 k).
+
+Record ppair_state := PPS {
+  pps_switches : N; pps_hamming : N; pps_sf_cost : N; pps_diff : nat;     (* totals *)
+  pps_pairs : nat; pps_compared : nat;
+  pps_longest : nat; pps_longest_err : poly_errors; pps_longest_pos : list Z
+}.
+Definition ppe_zero := PPE 0 0 0 [(0%N, 0%N)] 0.
+Definition ppair_step (k : nat) (t0 t1 : list pcall) (common : list call)
+                      (s : ppair_state) (block : list nat) : ppair_state :=
+  if Nat.ltb (length block) 2 then s else
+  let e := compare_block_poly (prows k t0 common block) (prows k t1 common block) in
+  let longer := Nat.ltb (pps_longest s) (length block) in
+  PPS (pps_switches s + ppe_switches_num e) (pps_hamming s + ppe_hamming_num e)
+      (pps_sf_cost s + ppe_sf_cost e) (pps_diff s + ppe_diff e)
+      (pps_pairs s + (length block - 1)) (pps_compared s + length block)
+      (if longer then length block else pps_longest s)
+      (if longer then e else pps_longest_err s)
+      (if longer then map (fun i => c_pos (nth i common dummy_call)) block else pps_longest_pos s).
+Definition compare2_poly (k : nat) (t0 t1 : list pcall) : nat * nat * ppair_state :=
+  let ts := [map strip t0; map strip t1] in
+  let common := common_variants ts in
+  let blocks := map snd (block_intersection (ids_of ts)) in
+  let big := filter (fun b => Nat.ltb 1 (length b)) blocks in
+  (length big, fold_right (fun b acc => length b + acc) 0 big,
+   fold_left (ppair_step k t0 t1 common) blocks (PPS 0 0 0 0 0 0 0 ppe_zero [])).
+
+(* ============================================================================================ *)
+(* 6. helpers for comparing reported values with the model                                      *)
+(* ============================================================================================ *)
+Fixpoint natlist_eqb (a b : list nat) : bool :=
+  match a, b with
+  | [], [] => true
+  | x :: a', y :: b' => Nat.eqb x y && natlist_eqb a' b'
+  | _, _ => false
+  end.
+Definition zz_eqb (a b : Z * Z) : bool := Z.eqb (fst a) (fst b) && Z.eqb (snd a) (snd b).
+Fixpoint zzlist_eqb (a b : list (Z * Z)) : bool :=
+  match a, b with
+  | [], [] => true
+  | x :: a', y :: b' => zz_eqb x y && zzlist_eqb a' b'
+  | _, _ => false
+  end.
+Definition zz_leb (a b : Z * Z) : bool :=
+  Z.ltb (fst a) (fst b) || (Z.eqb (fst a) (fst b) && Z.leb (snd a) (snd b)).
+Fixpoint zz_insert (x : Z * Z) (l : list (Z * Z)) : list (Z * Z) :=
+  match l with
+  | [] => [x]
+  | y :: t => if zz_leb x y then x :: l else y :: zz_insert x t
+  end.
+Definition zz_sort (l : list (Z * Z)) : list (Z * Z) := fold_right zz_insert [] l.
+Definition pe_eqb (a b : phasing_errors) : bool :=
+  Nat.eqb (pe_switches a) (pe_switches b) && Nat.eqb (pe_hamming a) (pe_hamming b) &&
+  Nat.eqb (fst (pe_sf a)) (fst (pe_sf b)) && Nat.eqb (snd (pe_sf a)) (snd (pe_sf b)) &&
+  Nat.eqb (pe_diff a) (pe_diff b).
+Fixpoint hist_eqb (a b : list (hap * nat)) : bool :=
+  match a, b with
+  | [], [] => true
+  | (k, c) :: a', (k', c') :: b' => hap_eqb k k' && Nat.eqb c c' && hist_eqb a' b'
+  | _, _ => false
+  end.
